@@ -135,6 +135,9 @@ class C14(Check):
         k = case["kind"]
         pairs = {}
         if k == "one":
+            if case.get("sibling"):
+                self.eval_tx(bytes.fromhex(case["sibling"]), (case.get("desc0", "replay"),), stats, [],
+                             pairs, through=False)
             self.eval_tx(bytes.fromhex(case["tx"]), (case.get("desc0", "replay"),), stats, vs, pairs,
                          through=True)
             return vs
@@ -251,10 +254,11 @@ class C14(Check):
                        tuple((i["outpoint"], i["sequence"], len(B.parse_ops(i["script"])),
                               B.parse_ops(i["script"])[-1][1] if B.parse_ops(i["script"])[-1][1] is not None
                               else B.parse_ops(i["script"])[-1][2]) for i in tx["vin"]))
-                if key in pairs and pairs[key] != out:
+                if key in pairs and pairs[key][0] != out:
                     self.viol(vs, "pair", desc[0], raw, desc, {"image": out},
-                              {"image_of_sibling": pairs[key]})
-                pairs.setdefault(key, out)
+                              {"image_of_sibling": pairs[key][0]})
+                    vs[-1].d["case"]["sibling"] = pairs[key][1].hex()
+                pairs.setdefault(key, (out, raw))
         if not through:
             return
         # whole path: sign request -> conforming device
